@@ -231,7 +231,7 @@ def gen(ctx):
     # exhaustive: inducing_path on all acyclic ADMGs, dag_to_mag on all DAGs
     nmax_ip_full = 3 if tier == "quick" else 4
     for n in range(2, nmax_ip_full + 1):
-        Q = all_queries(n, guards=True)
+        Q = all_queries(n, guards=(n < 4))
         for g in acyclic_graphs(n, C.ADMG_STATES):
             i += 1
             yield {"kind": "ipm", "g": g, "fam": fams[i % 5] if n < 4 else ("int", "bigint", "str", "tuple")[i % 4], "Q": Q, "src": "exh-ip%d" % n}
@@ -254,7 +254,7 @@ def gen(ctx):
                 i += 1
                 yield {"kind": "dm", "g": g, "L": L, "S": S, "fam": fams[i % 5], "src": "smp-dm4"}
     # structured random, n = 5..7 (the order-dependent incompleteness of the unfixed DFS starts at 5)
-    N = 2500 if tier == "quick" else 30000
+    N = 2500 if tier == "quick" else 20000
     for j in range(N):
         n = rng.choice((5, 5, 6, 6, 7, 7, 8))
         g = rand_admg(rng, n)
@@ -268,7 +268,7 @@ def gen(ctx):
             Q.append([x, y, L, S])
         i += 1
         yield {"kind": "ipm", "g": g, "fam": fams[i % 5], "Q": Q, "src": "rnd-ip%d" % n}
-    N = 1200 if tier == "quick" else 14000
+    N = 1200 if tier == "quick" else 10000
     for j in range(N):
         n = rng.choice((5, 5, 5, 6)) if tier == "quick" else rng.choice((5, 5, 6, 6, 7))
         g = rand_admg(rng, n, dag_only=True)
